@@ -1,5 +1,5 @@
 \* demonstration only (not part of the check): operator= as it was before fix bb45fea1c
 SPECIFICATION Spec
 CONSTANTS MaxDepth = 4 Sel = "core" WNeg = 1 WHi = 1 K = 2 Full2 = FALSE PreFixAssign = TRUE
-INVARIANTS Inv_MemorySafeNow
+INVARIANTS Inv_MemorySafe
 CHECK_DEADLOCK FALSE
